@@ -11,6 +11,10 @@ from fractions import Fraction as Fr
 
 import numpy as _np
 
+# float64 fallback: code that cannot run on object arrays of rationals at all (a ufunc called with dtype=float, a compiled
+# routine, ...) is run on the SAME rational values as float64 arrays; every comparison then uses the 1e-9 relative tolerance
+FLOAT = bool(os.environ.get("OBJRUN_FLOAT"))
+
 
 def fr_array(rs, shape, lo=-2, hi=2, den=7, positive=False):
     """random rationals with small denominators"""
@@ -21,6 +25,9 @@ def fr_array(rs, shape, lo=-2, hi=2, den=7, positive=False):
         if positive and num <= 0:
             num = 1
         vals.append(Fr(int(num), den))
+    if FLOAT:
+        a = _np.array([float(v) for v in vals], dtype=float)
+        return a.reshape(shape) if shape else float(a[0])
     a = _np.empty(n, dtype=object)
     a[:] = vals
     return a.reshape(shape) if shape else a[0]
@@ -28,6 +35,8 @@ def fr_array(rs, shape, lo=-2, hi=2, den=7, positive=False):
 
 def to_obj(a):
     a = _np.asarray(a)
+    if FLOAT:
+        return a.astype(float)
     if a.dtype == object:
         return a
     out = _np.empty(a.shape, dtype=object)
@@ -92,6 +101,8 @@ class NPProxy:
         return getattr(_np, n)
 
     def _fill(self, shape, v):
+        if FLOAT:
+            return _np.full(shape, float(v))
         a = _np.empty(shape, dtype=object)
         a.reshape(-1)[:] = [Fr(v)] * a.size if a.size else []
         return a
@@ -114,6 +125,8 @@ class NPProxy:
         return self._fill(shape, 1)
 
     def full(self, shape, fill_value, dtype=None, like=None, **kw):
+        if FLOAT:
+            return _np.full(shape, fill_value, dtype=dtype)
         a = _np.empty(shape, dtype=object)
         a.reshape(-1)[:] = [fill_value] * a.size
         return a
@@ -138,6 +151,8 @@ class NPProxy:
         return a
 
     def sqrt(self, x):
+        if FLOAT:
+            return _np.sqrt(x)
         raise NotImplementedError("sqrt in exact mode")
 
 
@@ -168,7 +183,7 @@ def mk_ubm(rs, C, D):
     u = GMMMachine(C)
     u._means = fr_array(rs, (C, D))
     u._variances = fr_array(rs, (C, D), positive=True)
-    u._weights = _np.array([Fr(1, C)] * C, dtype=object)
+    u._weights = _np.array([Fr(1, C)] * C, dtype=object) if not FLOAT else _np.full(C, 1.0 / C)
     return u
 
 
@@ -198,6 +213,15 @@ def mk_machine(rs, kind, C, D, rU, rV=None, ubm=None, **kw):
     return m
 
 
+def arr(x):
+    """array of exact rationals (float64 in the fallback mode)"""
+    return _np.array(x, dtype=float if FLOAT else object)
+
+
+def asarr(x):
+    return _np.asarray(x, dtype=float if FLOAT else object)
+
+
 def snapshot(x):
     """deep exact copy of arrays / statistics for bitwise before/after comparison"""
     import copy
@@ -214,6 +238,40 @@ def _eq(x, y):
     except (TypeError, ValueError):
         return False
     return abs(fx - fy) <= 1e-9 * (1.0 + abs(fx) + abs(fy))
+
+
+ENGINE_LIMIT = (TypeError, NotImplementedError, AttributeError)     # numpy's UFuncTypeError is a TypeError
+
+
+def run_main(modes, mode, params):
+    """shared entry point of the objrun-based harnesses: an exception raised inside the package is a reproduction -- unless it is
+    the exact engine that cannot run this code (object arrays of rationals refused by a ufunc / compiled routine): then the same
+    scenario is re-run on float64 arrays of the same values (tolerance 1e-9), and only that run's verdict counts"""
+    import json
+    import subprocess
+    import sys
+    import traceback
+    try:
+        r = modes[mode](params)
+    except Exception as e:
+        tb = traceback.format_exc()
+        inside = "/bob/learn/em/" in tb
+        if inside and isinstance(e, ENGINE_LIMIT) and not FLOAT:
+            env = dict(os.environ, OBJRUN_FLOAT="1")
+            p = subprocess.run([sys.executable] + sys.argv, capture_output=True, text=True, env=env)
+            lines = [ln for ln in p.stdout.strip().splitlines() if ln.startswith("{")]
+            if lines:
+                r = json.loads(lines[-1])
+                r["engine"] = "float64 fallback (the exact engine cannot run this code: %s: %s)" % (type(e).__name__, str(e)[:200])
+                return r
+            return {"reproduced": False, "harness_error": True, "what": "exact engine limit (%s: %s) and the float64 fallback gave no verdict: %s"
+                    % (type(e).__name__, str(e)[:200], p.stderr[-400:])}
+        if FLOAT and isinstance(e, ENGINE_LIMIT) and "dtype('O')" in str(e):
+            inside = False        # rationals left over in the float64 re-run: a limit of the harness, not a behaviour of the code
+        r = {"reproduced": bool(inside), "what": "the real code raised %s: %s" % (type(e).__name__, e), "traceback": tb[-1800:], "harness_error": not inside}
+    if FLOAT and isinstance(r, dict):
+        r.setdefault("engine", "float64 fallback")
+    return r
 
 
 def same(a, b):
